@@ -5,7 +5,7 @@ CONSTANTS
   InitBal = "3"
   MaxLen = 4
   Scenarios <- MC_AdvModel
-  Defects = {"hook_no_checks", "unescrow_receiver_only", "wrapper_false_is_success"}
+  Defects = {"hook_no_checks", "unescrow_receiver_only"}
 INVARIANT MInv_Compensated
 PROPERTY MStep_Compensated
 VIEW View
